@@ -27,6 +27,37 @@ package faucetsc
 //@   ensures result0 ==> asked(t, gn) + gn.Used <= gn.GlobalLimit
 //@   modifies nothing
 
+// ---------------------------------------------------------------- reset windows (C17)
+// The stored per-client record (ghost model of the trie):
+//   $fuPresent[c]  client c has a stored faucet record
+//   $fuUsed[c]     tokens poured to c in its current window, as stored
+//   $fuStart[c]    start of that window (nanoseconds), as stored
+// Instants: a time.Time is modelled by its `ext` field (nanoseconds since the Unix epoch, no
+// monotonic reading) - see the assumed contracts of common.ToTime / Time.Sub in /verif/contracts.
+//@ ghost $fuPresent (Str) Bool
+//@ ghost $fuUsed (Str) Int
+//@ ghost $fuStart (Str) Int
+
+// getUserNode reads the client's record from the trie (3 lines; trusted against the ghost model).
+//@ func (*FaucetSmartContract).getUserNode
+//@   trusted
+//@   ensures result0 != nil && fresh(result0) && result0.ID == id
+//@   ensures result1 == nil ==> $fuPresent[id] && result0.Used == $fuUsed[id] && result0.StartTime.ext == $fuStart[id]
+//@   ensures $fuPresent[id] ==> result1 != util.ErrValueNotPresent
+//@   modifies nothing
+
+// A client's window is restarted (usage zeroed) only when it is over: as long as the stored window is
+// still open with respect to both reset periods, the stored usage and start are what pour works with.
+// A client without a record, or whose window is over, starts a new window at the transaction time.
+//@ func (*FaucetSmartContract).getUserVariables
+//@   prop C17
+//@   requires t != nil && gn != nil && gn.FaucetConfig != nil
+//@   ensures[open-window-keeps-usage] result1 == nil && $fuPresent[t.ClientID] && t.CreationDate * 1000000000 - $fuStart[t.ClientID] < gn.IndividualReset && t.CreationDate * 1000000000 - $fuStart[t.ClientID] < gn.GlobalReset ==> result0.Used == $fuUsed[t.ClientID] && result0.StartTime.ext == $fuStart[t.ClientID]
+//@   ensures[otherwise-new-window] result1 == nil ==> (result0.Used == $fuUsed[t.ClientID] && result0.StartTime.ext == $fuStart[t.ClientID] && $fuPresent[t.ClientID]) || (result0.Used == 0 && result0.StartTime.ext == t.CreationDate * 1000000000)
+//@   ensures[over-window-restarts] result1 == nil && (t.CreationDate * 1000000000 - result0.StartTime.ext >= gn.IndividualReset || t.CreationDate * 1000000000 - result0.StartTime.ext >= gn.GlobalReset) ==> gn.IndividualReset <= 0 || gn.GlobalReset <= 0
+//@   ensures result1 == nil ==> result0 != nil && fresh(result0)
+//@   modifies nothing
+
 // Every token that leaves the faucet wallet is within the balance and both limits at the moment
 // the transfer is queued, goes from the faucet to the requesting client, and is accounted in
 // the per-client and global counters, which are then persisted.
